@@ -14,9 +14,13 @@ TracePath == /\ l <= Len(Rec) /\ IsPath /\ l' = l + 1
              /\ Check(ev.mangled = Mangled(ev.raw) /\ ~ev.mangled_abs)
              /\ Check(EnclosedSafe(ev.raw) /\ MangledSafe(ev.raw))
              /\ TLCSet(1, TLCGet(1) + 1)
-TraceOther == l <= Len(Rec) /\ ~IsPath /\ l' = l + 1
+TraceFromPath == /\ l <= Len(Rec) /\ ev.ev = "WFromPath" /\ l' = l + 1
+                 /\ Check(ev.r = "ok" /\ ev.got = FromPath(ev.raw, ev.dir))
+                 /\ Check(FromPathSafe(ev.raw))
+                 /\ TLCSet(1, TLCGet(1) + 1)
+TraceOther == l <= Len(Rec) /\ ~IsPath /\ ev.ev # "WFromPath" /\ l' = l + 1
 TraceInit == l = 1 /\ TLCSet(1, 0)
-TraceSpec == TraceInit /\ [][TracePath \/ TraceOther]_l
+TraceSpec == TraceInit /\ [][TracePath \/ TraceFromPath \/ TraceOther]_l
 TraceAccepted ==
    LET d == TLCGet("stats").diameter IN
    IF d - 1 = Len(Rec) THEN PrintT(<<"STATS", "paths", TLCGet(1)>>) ELSE Print(<<"REJECTED", d, ToJson(Rec[d])>>, FALSE)
